@@ -26,6 +26,7 @@ def runs_for(prop, tier):
         "C11": [R("core", 1.5), R("reload"), R("dyn")],
         "C16": [R("reload", 2), R("quota", .6), R("limits", .6)],
         "C13": [R("bad", 3), R("core", .5)],
+        "C12": [R("restart", 3)],
     }
     return table[prop]
 
@@ -63,7 +64,7 @@ def model_stage(tier, seed, mc=True):
 NEED = {   # vacuity guards: the run is not a verdict unless these step kinds occurred
     "C01": ["schedAlloc"], "C02": ["schedAlloc"], "C03": ["schedAlloc", "drains", "replConfirm"], "C04": ["schedAlloc", "confirm"],
     "C05": ["schedAlloc"], "C06": ["replDecided", "replConfirm", "phTimerFired"], "C07": ["preemptSteps"], "C08": ["preemptSteps"],
-    "C09": ["resvMade"], "C10": ["appStateChanges", "stateTimerFired"], "C11": ["schedAlloc"], "C16": ["reloadOk", "reloadRejected"], "C13": ["bad"],
+    "C09": ["resvMade"], "C10": ["appStateChanges", "stateTimerFired"], "C11": ["schedAlloc"], "C16": ["reloadOk", "reloadRejected"], "C13": ["bad"], "C12": ["restart", "schedAlloc"],
 }
 
 # properties decided by their own pipeline module (vlib/<module>.py: main(prop, tier, seed, argv))
